@@ -101,4 +101,7 @@ example : ipAllowed (some (.v4 0xC0A80264)) [.bad, .cidr (.v4 0xC0A80100) 24] = 
 example : ipAllowed (some (normalizeIP (4294967296 * 65535 + 0x0A000001))) [.single (.v4 0x0A000001)] = true := by
   decide
 
+/-- regenerated from the source on every run: HandleCall takes the policy read lock before it validates the caller (so that an update drains requests judged under the old policy), and the address it judges is the peer's -/
+theorem gen_validation_under_lock : (Gen.handleCallValidatesUnderLock && Gen.connLoopClientIPFromPeer) = true := by decide
+
 end Props.C09
